@@ -1,5 +1,6 @@
 (* C20 — A backup opens to the same log. *)
 From KV Require Import Base Model Backup Spec LogInv OpenProofs History BackupProofs.
+From KV Require Import Durable BackupFiles BackupFilesProofs.
 
 (* Backup into an empty directory is the source directory itself *)
 Theorem C20_into_empty : forall src, chain_ok src -> backup_dir [] src = src.
@@ -44,3 +45,52 @@ Theorem C20_skip_rule_safe :
   forall (old new tl : bytes), new = old ++ tl -> length old = length new -> old = new.
 Proof. exact skip_rule_safe. Qed.
 Print Assumptions C20_skip_rule_safe.
+
+(* ---------- the copy mechanics (BackupFiles.v: pkg/segment/utils.go copyFile on files with content and modification
+   time - a target file whose size and mtime equal the source's is kept, otherwise it is rewritten and given the source's
+   mtime).  As long as every file of the target that carries a name of the source is a PREFIX of that source file - an
+   empty target, the result of an earlier Backup of a source that has since only been appended to, what a killed Backup
+   leaves - a Backup makes every source file appear in the target with exactly the source's bytes and time, whatever the
+   modification times in the target are: the skip rule never keeps a file that differs *)
+Theorem C20_backup_gives_source :
+  forall src tgt,
+  NoDup (map fst src) -> fcovered tgt src ->
+  forall n s, blookup src n = Some s -> blookup (backup_files src tgt) n = Some s.
+Proof. exact backup_gives_source. Qed.
+Print Assumptions C20_backup_gives_source.
+
+(* the premise holds for an empty target, and again after every Backup while the source is only appended to *)
+Theorem C20_covered_is_maintained :
+  (forall src, fcovered [] src) /\
+  (forall src src' tgt, NoDup (map fst src) -> fcovered tgt src -> fcovered tgt src' -> appended src src' ->
+     fcovered (backup_files src tgt) src').
+Proof. split; [exact covered_empty|exact covered_after_backup]. Qed.
+Print Assumptions C20_covered_is_maintained.
+
+(* a Backup killed at any point - before, inside (any number of bytes written, the file stamped with the time of the
+   kill) or after the copy of any file - leaves a target that the next Backup, of the same source or of one that has
+   since been appended to, completes to exactly the source *)
+Theorem C20_backup_after_killed_backup :
+  forall src src' tgt now t',
+  NoDup (map fst src) -> NoDup (map fst src') -> fcovered tgt src -> fcovered tgt src' -> appended src src' ->
+  killed_backup src tgt now t' ->
+  forall n s', blookup src' n = Some s' -> blookup (backup_files src' t') n = Some s'.
+Proof. exact backup_after_killed_backup. Qed.
+Print Assumptions C20_backup_after_killed_backup.
+
+(* non-vacuity: a source of two files, a target holding an older (shorter) copy of the first one with the OLD source's
+   time, a Backup killed after 1 byte of the second file; the next Backup restores both *)
+Example C20_killed_example :
+  let src := [(FLog 0, mkB [1; 2; 3]%N 20); (FIdx 0, mkB [9; 8]%N 21)] in
+  let tgt := [(FLog 0, mkB [1; 2]%N 10)] in
+  let t' := bset (backup_files [(FLog 0, mkB [1; 2; 3]%N 20)] tgt) (FIdx 0) (mkB [9]%N 99) in
+  killed_backup src tgt 99 t' /\ fcovered tgt src /\
+  backup_files src t' = src.
+Proof.
+  cbv zeta. split; [|split].
+  - exists [(FLog 0, mkB [1; 2; 3]%N 20)], (FIdx 0), (mkB [9; 8]%N 21), [], (Some (mkB [9]%N 99)).
+    split; [reflexivity|]. split; [exact (ci_partial (mkB [9; 8]%N 21) _ 99 1%nat)|reflexivity].
+  - intros n s d Hs Hd. destruct n as [b|b| |]; cbn in Hs, Hd; try discriminate.
+    destruct b; cbn in Hs, Hd; try discriminate. injection Hs as <-. injection Hd as <-. exists [3%N]. reflexivity.
+  - vm_compute. reflexivity.
+Qed.
